@@ -63,7 +63,54 @@ func boolLit(b bool) Term {
 	return tFalse
 }
 
+func litVal(t Term) (int64, bool) {
+	s := t.S
+	neg := false
+	if strings.HasPrefix(s, "(- ") && strings.HasSuffix(s, ")") && !strings.Contains(s[3:], " ") {
+		neg = true
+		s = s[3 : len(s)-1]
+	}
+	if s == "" || len(s) > 17 {
+		return 0, false
+	}
+	var n int64
+	for _, c := range s {
+		if c < '0' || c > '9' {
+			return 0, false
+		}
+		n = n*10 + int64(c-'0')
+	}
+	if neg {
+		n = -n
+	}
+	return n, true
+}
+
 func app(sort string, op string, args ...Term) Term {
+	if sort == sInt && len(args) == 2 && (op == "+" || op == "-") && args[0].Sort == sInt && args[1].Sort == sInt {
+		a, aok := litVal(args[0])
+		b, bok := litVal(args[1])
+		switch {
+		case aok && bok && op == "+":
+			return intLit(a + b)
+		case aok && bok && op == "-":
+			return intLit(a - b)
+		case bok && b == 0:
+			return args[0]
+		case aok && a == 0 && op == "+":
+			return args[1]
+		}
+	}
+	if sort == sBool && len(args) == 2 && (op == "<=" || op == "<") {
+		a, aok := litVal(args[0])
+		b, bok := litVal(args[1])
+		if aok && bok {
+			if op == "<=" {
+				return boolLit(a <= b)
+			}
+			return boolLit(a < b)
+		}
+	}
 	var sb strings.Builder
 	sb.WriteString("(")
 	sb.WriteString(op)
